@@ -1106,7 +1106,10 @@ func c02Plugin(c *Ctx, ro *c02Roles) {
 	nameD := desc(nameV)
 	named := fi.edgesMatching(func(l string, _ *ssa.If, _ bool) bool { return l == "NE("+nameD+`,const:"")` })
 	unnamed := fi.edgesMatching(func(l string, _ *ssa.If, _ bool) bool { return l == "EQ("+nameD+`,const:"")` })
-	if len(named) == 0 {
+	// the lookup helper may be the BODY of the named branch: the test is then in P, on the argument P hands in as the name,
+	// and guards the call (c02NamedEntry): L runs with a plugin named only, all its success exits are exits "with a plugin named"
+	entry := c02NamedEntry(ro)
+	if len(named) == 0 && entry == nil {
 		c.Unk("plugin/precondition", "anchor: the branch on 'the signature names a verification plugin' (name != \"\")", w.InstrPos(getCall), "no test of "+nameD+" against \"\"")
 		return
 	}
@@ -1147,12 +1150,25 @@ func c02Plugin(c *Ctx, ro *c02Roles) {
 	{
 		rule := "must-check (disjunctive): with a plugin named, success requires the min-version attribute lookup to return nil or the not-exist sentinel"
 		var mv *ssa.Call
-		for _, ci := range allCalls(F) {
-			if call, ok := ci.(*ssa.Call); ok {
-				// the reader of the attribute: (…) -> (string, error), the first one on the way (later calls such as the plugin execution may mention the constant too)
-				if g := staticCallee(call); g != nil && w.IsProductFn(g) && mv == nil && g.Signature.Results().Len() == 2 && g.Signature.Results().At(0).Type().String() == "string" && isErrorType(g.Signature.Results().At(1).Type()) && mentionsConst(w, g, "io.cncf.notary.verificationPluginMinVersion") {
-					mv = call
+		findReader := func(f *ssa.Function) {
+			for _, ci := range allCalls(f) {
+				if call, ok := ci.(*ssa.Call); ok {
+					// the reader of the attribute: (…) -> (string, error), the first one on the way (later calls such as the plugin execution may mention the constant too)
+					if g := staticCallee(call); g != nil && w.IsProductFn(g) && g != ro.L && mv == nil && g.Signature.Results().Len() == 2 && g.Signature.Results().At(0).Type().String() == "string" && isErrorType(g.Signature.Results().At(1).Type()) && mentionsConst(w, g, "io.cncf.notary.verificationPluginMinVersion") {
+						mv = call
+					}
 				}
+			}
+		}
+		findReader(F)
+		mfi, mvUnnamed := fi, unnamed
+		if mv == nil && entry != nil {
+			// the helper is the body of the named branch, cut behind the reading of the attribute: the reader is called by P and
+			// handed in. The obligation is the same sentence on P's graph: every success of P that does not take a "no plugin
+			// named" edge passes `err == nil` or `err == sentinel` of the reader
+			findReader(ro.P)
+			if mv != nil {
+				mfi, mvUnnamed = w.Info(ro.P), entry.unnamed
 			}
 		}
 		if mv == nil {
@@ -1169,26 +1185,41 @@ func c02Plugin(c *Ctx, ro *c02Roles) {
 				}
 				return false
 			}
-			cut := fi.edgesMatching(func(l string, _ *ssa.If, _ bool) bool {
+			cut := mfi.edgesMatching(func(l string, _ *ssa.If, _ bool) bool {
 				return l == "EQ("+d+",nil)" || isSent(l, d)
 			})
-			for e := range unnamed {
+			nGate := len(cut)
+			for e := range mvUnnamed {
 				cut[e] = true
 			}
 			c.Evals++
-			if path := fi.successWitness(Mode{Kind: mErr}, entryState(), cut); path != nil || len(cut) == len(unnamed) {
+			if path := mfi.successWitness(Mode{Kind: mErr}, entryState(), cut); path != nil || nGate == 0 {
 				c.Bad("plugin/min-version-attr", rule, w.InstrPos(mv), "a malformed minimum-version attribute does not fail verification", path...)
 			} else {
 				c.OK("plugin/min-version-attr", rule, w.InstrPos(mv))
 			}
 			// the same for the plugin name attribute itself (all paths)
 			nc := callOf(nameV)
+			nfi := fi
+			if nc == nil && ro.L != ro.P && ro.lcall != nil {
+				// the name is a parameter of the lookup helper: the attribute is read by the caller, and it is the caller's
+				// success that must require the reader's error to be nil or the sentinel (the same obligation, on P's graph)
+				if par, isPar := c02Unconv(nameV).(*ssa.Parameter); isPar && par.Parent() == ro.L {
+					for i, q := range ro.L.Params {
+						if q == par && i < len(ro.lcall.Call.Args) {
+							if pc := callOf(c02Unconv(ro.lcall.Call.Args[i])); pc != nil && pc.Parent() == ro.P {
+								nc, nfi = pc, w.Info(ro.P)
+							}
+						}
+					}
+				}
+			}
 			if nc != nil {
 				dn := desc(nc) + "#err"
-				cut2 := fi.edgesMatching(func(l string, _ *ssa.If, _ bool) bool {
+				cut2 := nfi.edgesMatching(func(l string, _ *ssa.If, _ bool) bool {
 					return l == "EQ("+dn+",nil)" || isSent(l, dn)
 				})
-				if path := fi.successWitness(Mode{Kind: mErr}, entryState(), cut2); path != nil || len(cut2) == 0 {
+				if path := nfi.successWitness(Mode{Kind: mErr}, entryState(), cut2); path != nil || len(cut2) == 0 {
 					c.Bad("plugin/name-attr", "must-check (disjunctive): success requires the plugin-name attribute lookup to return nil or the not-exist sentinel", w.InstrPos(nc), "a malformed plugin-name attribute does not fail verification", path...)
 				} else {
 					c.OK("plugin/name-attr", "must-check (disjunctive): success requires the plugin-name attribute lookup to return nil or the not-exist sentinel", w.InstrPos(nc))
